@@ -37,6 +37,8 @@ the real lines):
   N14 D = {'k': a, ...} used only as D['k'] with names / literals as values -> the values themselves.
   N17 a, b = (E(x) for x in cur.fetchone()) -> t = cur.fetchone() ; a = E(t[0]) ; b = E(t[1]).
   N16 x = A if C else B -> if C: x = A else: x = B ; return A if C else B -> if C: return A else: return B.
+  N18 X = np.asarray(E) ; X op= F -> X = np.asarray(E) ; X = X op F  (value of a once-bound local array; aliasing is
+      decided on the source as written, alias.py).
   N15 np.logical_and(A, B) -> A & B, np.logical_or -> |, np.logical_not(A) -> ~A  when A, B are comparisons.
   N3  keyword arguments that name the next positional parameter of a function
       of the repository become positional  (done by Repo once all modules are
@@ -592,6 +594,42 @@ def unpack_comprehensions(fnode):
     return n
 
 
+def inplace_arithmetic(fnode):
+    """N18:  X = np.asarray(E, ...) ; X op= F   ->   X = np.asarray(E, ...) ; X = X op F
+    for a local bound once to a numpy array constructor / conversion and changed by one augmented assignment
+    later in the same block.  The *value* of X is the same; whether the buffer that is changed in place belongs
+    to the caller is decided on the source as written (alias.py), not on this normal form."""
+    n = 0
+    own, _nested = _own_nodes(fnode)
+    stores = {}
+    for x in own:
+        if isinstance(x, ast.Name) and isinstance(x.ctx, (ast.Store, ast.Del)):
+            stores.setdefault(x.id, []).append(x)
+    for blk in _blocks(fnode):
+        for i, st in enumerate(blk):
+            if not (isinstance(st, ast.AugAssign) and isinstance(st.target, ast.Name)
+                    and isinstance(st.op, (ast.Add, ast.Sub, ast.Mult, ast.Div))):
+                continue
+            x = st.target.id
+            if len(stores.get(x, [])) != 2:
+                continue
+            first = [b for b in blk[:i] if isinstance(b, ast.Assign) and len(b.targets) == 1 and isinstance(b.targets[0], ast.Name) and b.targets[0].id == x]
+            if len(first) != 1 or not isinstance(first[0].value, ast.Call):
+                continue
+            c = first[0].value
+            fn = c.func
+            last = fn.attr if isinstance(fn, ast.Attribute) else (fn.id if isinstance(fn, ast.Name) else "")
+            if last not in ("asarray", "asanyarray", "array", "asfarray", "astype", "copy", "atleast_1d"):
+                continue
+            new = ast.Assign(targets=[ast.Name(id=x, ctx=ast.Store())],
+                             value=ast.BinOp(left=ast.Name(id=x, ctx=ast.Load()), op=st.op, right=st.value))
+            ast.copy_location(new, st)
+            ast.fix_missing_locations(new)
+            blk[i] = new
+            n += 1
+    return n
+
+
 def fold_constant_tests(fnode):
     """N13: `if True: A else: B` -> A ;  `x if False else y` -> y  (literal tests, as they arise when a helper
     called with a literal flag is unfolded)."""
@@ -811,6 +849,7 @@ def normalize_module(tree, modname=None, foreign=None):
             fold_constant_tests(node)
             conditional_statements(node)
             unpack_comprehensions(node)
+            inplace_arithmetic(node)
             for _k in range(3):
                 a_ = inline_temporaries(node)
                 c_ = split_tuple_assignments(node)
